@@ -12,9 +12,9 @@ from tools.vlib import Outcome
 from tools.props import c11_gen as G
 
 MANIFEST = {
-    "level_text": "Coq theorems (Properties/C11.v, no axioms) about a function-by-function Gallina transcription of validator_parser.rs (substring scanners over tokens.to_string(), the character-index/byte-index message slice with its panic, the five-step replace chain) and of schema_builder.rs (render_type, apply_*, escape_js_string): escape_js_string followed by JavaScript string-literal reading is the identity for every byte string; every parsed ValidatorAttributes value is rendered to a chain that reads back as exactly those constraints; on canonical single length/range validators the scanners return exactly the declared components (C11_exact_scan_partial) and array elements never carry validators (all element types); fields without #[validate] get the bare schema; a field's chain depends on its own attributes only; the boolean oracle is proved equivalent to its Prop statement; one refutation lemma with a computed witness per remaining known-finding class (seven), and positive statements on the witnesses of the two repaired ones (C11-5 multi-byte messages, C11-7 Option below Vec). The model is tied to /repo on every run by differential execution on generated structs (token strings, ValidatorAttributes, chains), and the extracted oracle (declared meta tree vs constraints read back from the emitted chain, exact decimal comparison, JS string decoding) is applied to the implementation's output.",
+    "level_text": "Coq theorems (Properties/C11.v, no axioms) about a function-by-function Gallina transcription of validator_parser.rs (substring scanners over tokens.to_string(), the character-index/byte-index message slice with its panic, the five-step replace chain) and of schema_builder.rs (render_type, apply_*, escape_js_string): escape_js_string followed by JavaScript string-literal reading is the identity for every byte string; every parsed ValidatorAttributes value is rendered to a chain that reads back as exactly those constraints; on every list of attributes built from email/url flags around one length/range validator (any argument order, plain message bodies) the attribute loop returns exactly the fold of the declared components (C11_loop_exact_partial, C11_later_attrs_only_add), the replace chain is exact on literals with the five supported escapes (C11_unescape_exact_partial) and array elements never carry validators (all element types); fields without #[validate] get the bare schema; a field's chain depends on its own attributes only; the boolean oracle is proved equivalent to its Prop statement; one refutation lemma with a computed witness per remaining known-finding class (seven), and positive statements on the witnesses of the two repaired ones (C11-5 multi-byte messages, C11-7 Option below Vec). The model is tied to /repo on every run by differential execution on generated structs (token strings, ValidatorAttributes, chains), and the extracted oracle (declared meta tree vs constraints read back from the emitted chain, exact decimal comparison, JS string decoding) is applied to the implementation's output.",
     "design_ref": "DESIGN.md section 5 C11",
-    "level_note": "Partial. Proved for all inputs: C11_escape_roundtrip (every byte string); C11_exact_render_partial (every ValidatorAttributes value with number-text bounds, any number of Option wrappers, string / number / array-of-string fields: the chain reads back as exactly its constraints); C11_array_elements_bare (EVERY element type: a Vec field's chain is z.array(<bare element schema>) + length methods) with C11_exact_render_arrays_partial (read back for number, boolean, Option<number>, Vec<String>, Vec<Option<number>> elements) and C11_fixed7_render_option_element; C11_none; C11_not_misattached; C11_oracle_exact (the boolean run-time oracle is equivalent to the Prop C11_holds). Scanning half proved on a named sub-domain: C11_exact_scan_partial - one #[validate(length(..))] or #[validate(range(..))] whose arguments are any subset of min, max, message in that order, bounds any number texts, message literal a plain double-quoted body (any bytes incl. multi-byte, but no double quote, backslash, closing parenthesis or validator keyword): on tok_string of it the scanners return exactly the declared components, no panic, email = url = false, for every f64 function; C11_exact_canon_partial composes both halves for String / numeric / Vec<String> fields. NOT proved (kept in Definition C11_exact_full_statement, enforced at run time on every generated case outside the seven classes): other argument orders, several validators per attribute (email/url/other validators beside length/range), several attributes per field, escapes in the message literal (backslash-quote, backslash-backslash, backslash-n/t), and the link from printed bound text to the declared decimal value (u64 Display / f64 Display, i.e. dec_of_text (show_N n) and the dispf Section variable). Seven C11_kf*_refuted witnesses, two C11_fixed*_ok, C11_classes_separate. f64 parse/Display is hand-written OCaml in the runner (compared with the harness on every case). Trusted: syn/proc_macro2 printing (token strings compared on every case), python Rust-source printer (literal values cross-checked against syn::LitStr::value), the Zod/ECMAScript reading in Spec/C11Spec.v, ASCII-only trim().",
+    "level_note": "Partial. Proved for all inputs: C11_escape_roundtrip (every byte string); C11_exact_render_partial (every ValidatorAttributes value with number-text bounds, any number of Option wrappers, string / number / array-of-string fields: the chain reads back as exactly its constraints); C11_array_elements_bare (EVERY element type: a Vec field's chain is z.array(<bare element schema>) + length methods) with C11_exact_render_arrays_partial (read back for number, boolean, Option<number>, Vec<String>, Vec<Option<number>> elements); C11_none; C11_not_misattached; C11_oracle_exact (boolean oracle <-> Prop C11_holds). Scanning half (dispf = f64 parse+print stays a Section variable throughout): C11_exact_scan_partial - one length(..)/range(..) validator with any subset of min, max, message in ANY of the six orders, bounds any number texts, message a plain double-quoted body (any bytes incl. multi-byte, no double quote / backslash / closing parenthesis / validator keyword): the scanners return exactly the declared components; C11_loop_exact_partial - ANY list of attributes in any order, each #[validate(flags.., length|range(..), flags..)] (flags = any number of email / url before and after), #[validate(flags..)], #[validate()], #[validate] or a non-validate attribute: parse_validator_attributes does not panic and equals the left fold of the per-attribute effects, Some iff a validate attribute is present; C11_later_attrs_only_add - attributes that declare no length (range) leave the length (range) parsed so far untouched and flags stay set (the loop the seeds C11-1 / C11-4 break); C11_unescape_exact_partial + C11_message_escapes_partial - message literals with escapes backslash + double quote / single quote / n / t / backslash (an escaped backslash not directly before a plain n, t, single quote): the five-step replace chain computes exactly the literal's value and parse_message returns it wherever the literal stands; C11_exact_canon_partial composes scanning and rendering for String / numeric / Vec<String> fields. NOT proved (kept in Definition C11_exact_full_statement, enforced at run time on every generated case outside the seven classes): the escape sub-language is proved for parse_message alone and is not yet threaded through the keyword-absence lemmas of the loop theorem (its messages are the plain bodies); other validators (custom(..), must_match(..), required ..) beside length/range in the theorem's attribute grammar; email(message = ..) forms (class C11-8); the link from printed bound text to the declared decimal value (u64 Display: dec_of_text (show_N n); f64: the dispf Section variable); read-back of arrays with arbitrary element types (the text-level statement C11_array_elements_bare is general; the reader needs a fuel-monotonicity induction over read_schema that was not done). Seven C11_kf*_refuted witnesses, two C11_fixed*_ok, C11_classes_separate. f64 parse/Display is hand-written OCaml in the runner (compared with the harness on every case). Trusted: syn/proc_macro2 printing (token strings compared on every case), python Rust-source printer (literal values cross-checked against syn::LitStr::value), the Zod/ECMAScript reading in Spec/C11Spec.v, ASCII-only trim().",
     "technique": "Rocq/Coq proof over hand-written model + correspondence check (extracted OCaml vs Rust harness and real CLI)"
 }
 
